@@ -55,6 +55,13 @@ def execute(job):
             first = job["extra_first"]
             dims = (N("col"), N("zc")) if first else (N("zc"), N("col"))
             da = xr.DataArray(phis if first else phis.T, dims=dims, name=N("phi"))
+            nrow = 2 if job.get("da_extra") else 1
+            if nrow == 2:
+                # the data has one more dimension than target_data: every row is transformed against the same
+                # target_data; the second row holds 2 * phi + 1
+                da = xr.concat([da, 2 * da + 1], dim=N("row")).rename(N("phi"))
+                if job.get("row_last"):
+                    da = da.transpose(..., N("row"))
             td = xr.DataArray(real_th if first else real_th.T, dims=dims, name=N("theta"))
             if job.get("tdtype"):
                 td = td.astype(job["tdtype"])          # integer-valued profiles: exact in every dtype used
@@ -94,19 +101,29 @@ def execute(job):
             # the result is named after the input plus the suffix: map the input's part back
             if name.startswith(N("phi")):
                 name = "phi" + name[len(N("phi")):]
-            res = res.transpose(N("col"), *nd)
-            vals = np.asarray(res.values)
-            outs = [vals[c] for c in range(ncol)]
-        for c, cid in enumerate(job["ids"]):
+            if nrow == 2:
+                nd = [d for d in nd if d != N("row")]
+                newdim = INV.get(nd[0], nd[0]) if len(nd) == 1 else str(nd)
+                res = res.transpose(N("row"), N("col"), *nd)
+                vals = np.asarray(res.values)
+                outs = [vals[0][c] for c in range(ncol)] + [vals[1][c] for c in range(ncol)]
+            else:
+                res = res.transpose(N("col"), *nd)
+                vals = np.asarray(res.values)
+                outs = [vals[c] for c in range(ncol)]
+        for k_, cid in enumerate(job["ids"]):
+            c = k_ % ncol
+            phi_rec = job["phis"][c] if k_ < ncol else [2 * v + 1 for v in job["phis"][c]]
             lv = job["levels"][c if job.get("target") == "nd" else 0]
             recs.append({"id": cid, "ev": "Linear", "via": job["via"], "method": job["method"],
-                         "theta": [2 * t for t in job["thetas"][c]], "phi": job["phis"][c], "levels": lv,
+                         "theta": [2 * t for t in job["thetas"][c]], "phi": phi_rec, "levels": lv,
                          "mask": bool(job["mask"]), "bypass": bool(job["bypass"]), "target": job.get("target", "-"),
                          "chunk": bool(job.get("chunk")), "expect_newdim": exp_dim, "expect_name": exp_name, "td_default": bool(job.get("td_default")),
-                         "out": {"k": "values", "v": [[0, 0] if v == "nan" else v for v in (model.enc_rat(float(x)) for x in outs[c])],
+                         "out": {"k": "values", "v": [[0, 0] if v == "nan" else v for v in (model.enc_rat(float(x)) for x in outs[k_])],
                                  "newdim": newdim, "name": name}})
     except Exception as ex:
-        for c, cid in enumerate(job["ids"]):
+        for k_, cid in enumerate(job["ids"]):
+            c = k_ % ncol
             recs.append({"id": cid, "ev": "Linear", "via": job["via"], "method": job["method"],
                          "theta": [2 * t for t in job["thetas"][c]], "phi": job["phis"][c], "levels": job["levels"][0],
                          "mask": bool(job["mask"]), "bypass": bool(job["bypass"]), "target": job.get("target", "-"),
@@ -158,8 +175,10 @@ def gen_jobs(rng, thorough):
             thetas = [thetas[0] for _ in thetas]         # target_data left out: the axis coordinate, the same for every column
         first = levels()
         lv = [first] + [[rng.choice(range(-2, 2 * T2 + 3)) for _ in first] for _ in range(ncol - 1)] if target == "nd" else [first]
-        ids = list(range(cid + 1, cid + 1 + ncol))
-        cid += ncol
+        da_extra = via == "grid" and target != "nd" and rng.random() < 0.25
+        nids = ncol * (2 if da_extra else 1)
+        ids = list(range(cid + 1, cid + 1 + nids))
+        cid += nids
         affine = (0.0, 1.0)
         if method == "linear" and rng.random() < 0.3:
             affine = rng.choice([(1024.0, 2.0 ** -10), (1024.0, 2.0 ** -14), (-8.0, 0.5), (0.0, 2.0 ** -20)])
@@ -168,7 +187,7 @@ def gen_jobs(rng, thorough):
             tdtype = rng.choice(["int64", "int32", "float32"])
         jobs.append({"via": via, "method": method, "thetas": thetas, "phis": [[rng.randint(-6, 6) for _ in range(n)] for _ in range(ncol)],
                      "affine": list(affine), "tdtype": tdtype, "labels": rng.choice(["values", "numbers", "none"]),
-                     "da_coords": rng.random() < 0.5, "levels": lv, "mask": rng.random() < 0.5, "bypass": bypass, "ids": ids, "seed": cid, "target": target,
+                     "da_coords": rng.random() < 0.5, "da_extra": da_extra, "row_last": rng.random() < 0.5, "levels": lv, "mask": rng.random() < 0.5, "bypass": bypass, "ids": ids, "seed": cid, "target": target,
                      "suffix": rng.choice([None, None, "_x", ""]), "chunk": rng.random() < 0.4, "extra_first": rng.random() < 0.5, "td_default": td_default})
     return jobs
 
